@@ -65,6 +65,12 @@ class Library:
         :raises ValueError: If block is not in library."""
         if isinstance(blocks, Block):
             blocks = [blocks]
+        blocks = list(blocks)
+
+        # Raise before changing anything if one of the blocks is not in the library
+        remaining = list(self._blocks)
+        for block in blocks:
+            remaining.remove(block)
 
         for block in blocks:
             self._blocks.remove(block)
